@@ -24,7 +24,7 @@ def demo(wt, sd):
         gm = re.sub(r"=>\s*\S+", "=> " + wt, gm); open(os.path.join(tmp, "go.mod"), "w").write(gm)
         rc, out = sh("cd %s && go run . 2>&1 | tail -15" % tmp, env=ENV)
         shutil.rmtree(tmp, ignore_errors=True)
-        return (1 if rc != 0 else 0), out[-600:]
+        return (1 if (rc != 0 or "exit status" in out) else 0), out[-600:]
     return None, "no demo found"
 def main():
     sd = os.path.abspath(sys.argv[1]); sid = sys.argv[2]; props = sys.argv[3:]
